@@ -63,6 +63,9 @@ func main() {
 		if err == nil {
 			err = writeLoopBaseline(P, filepath.Join(*verif, "checker", "baseline_loops.txt"))
 		}
+		if err == nil {
+			err = writeParamBaseline(P, filepath.Join(*verif, "checker", "baseline_params.txt"))
+		}
 		if err != nil {
 			fmt.Fprintln(os.Stderr, err)
 			os.Exit(2)
